@@ -50,6 +50,25 @@ Theorem C06_enc_layout : forall tl p b,
   info_size (p_int p) (p_str p) <= L_max.
 Proof. exact enc_layout. Qed.
 
+(* why [info_size < 2^32] is a hypothesis and not a consequence: Encode converts the size to
+   uint32 before comparing it with MaxHeaderSize.  The size clause of the layout WITHOUT that
+   hypothesis is false on the code as written: with 65536 int keys carrying 65532-byte values the
+   header info is 2^32 + 8 bytes and Encode reports success (confirmed against the real Encode
+   with a counting writer, notes/findings_tth.txt).  Far outside the property's quantifier
+   ("sizes up to and just past the 65536 limit"); C06_enc_layout is the statement that holds. *)
+Definition C06_enc_size_statement : Prop :=
+  forall tl p b, NoDup (keys (p_str p)) -> params_wf p -> encode tl p = Ok b ->
+                 info_size (p_int p) (p_str p) <= L_max.
+
+Theorem C06_enc_size_statement_refuted : ~ C06_enc_size_statement.
+Proof. exact enc_size_statement_refuted. Qed.
+
+Theorem C06_enc_wrap : forall tl p,
+  NoDup (keys (p_str p)) ->
+  L_max < info_size (p_int p) (p_str p) -> info_size (p_int p) (p_str p) mod two32 <= L_max ->
+  exists b, encode tl p = Ok b /\ len b = L_meta + info_size (p_int p) (p_str p).
+Proof. exact enc_wrap. Qed.
+
 (* success implies that every length and count fits its 16-bit field *)
 Theorem C06_enc_ok_fits16 : forall tl p b,
   NoDup (keys (p_str p)) -> info_size (p_int p) (p_str p) < two32 ->
